@@ -37,6 +37,14 @@ Proof.
   apply arr_ext'. exact IH.
 Qed.
 
+Definition unify_arrays_x (n:nat) (s:store) (xs ys:list term) : ures :=
+  if Nat.eqb (length xs) (length ys) then arr (unify_x n) xs ys s else UFail.
+Lemma unify_arrays_x_eq n s xs ys : unify_arrays_x n s xs ys = unify_arrays n s xs ys.
+Proof.
+  unfold unify_arrays_x, unify_arrays. destruct (Nat.eqb (length xs) (length ys)); auto.
+  apply arr_ext'. apply unify_x_eq.
+Qed.
+
 Definition mk_unify_x (h:heap) (t1 t2:term) : gen :=
   let r := rstore h in
   let a1 := aseq r t1 in let a2 := aseq r t2 in
